@@ -332,7 +332,10 @@ def known_class_pair(specs, N):
     two gates of the SAME name with equal (sorted) targets, or equal non-empty (sorted) controls, whose
     unitaries do not commute (families that do not commute with themselves: QASMU, R, MS, FREDKIN, ...).
     commutation_rules declares such a pair commuting; hypothesis H2 of schedule_den_partial excludes it.
-    Returns the first such pair (i, j) or None."""
+    Returns the first such pair (i, j) or None.  On a tree that carries the repair (`_SELF_COMMUTING_GATES`
+    exists) nothing is excluded: a declared-commuting pair that does not commute is then a violation."""
+    if self_commuting_names() is not None:
+        return None
     for i in range(len(specs)):
         for j in range(i + 1, len(specs)):
             a, b = specs[i], specs[j]
